@@ -100,5 +100,7 @@ def diff_signature(e, diff):
     if names and all(n.startswith("_grist_") for n in names): return "metadata-rows-differ"
     return "user-tables-or-rows-differ"
   if "lookup" in tags: return "stale-lookup"
-  if "metadata" in tags: return "metadata"
+  if "metadata" in tags: return "metadata-cells-differ"
+  if tags & {"data", "trigger"}: return "stored-cells-differ"
+  if tags & {"formula"}: return "formula-results-differ"
   return "+".join(sorted(tags)) or "unknown"
